@@ -59,6 +59,13 @@ func runAPIProgram(ti, to jsonline.Template, lines []string) string {
 	guard(func() {
 		e := ti.CreateRowEmpty()
 		sb.WriteString(gRow(e, nil) + "|" + e.String() + "\n")
+		// a write below the top level of a row of one's own: the nested row of a declared sub-row belongs to the row
+		for k, l := range lines {
+			own := ti.CreateRowEmpty()
+			_ = own.ImportAtPath("sub.q", len(l)*7+k)
+			_ = own.ImportAtPath("sub", map[string]interface{}{"q": len(l)})
+			sb.WriteString(own.String() + "\n")
+		}
 		for _, l := range lines {
 			if r, err := to.CreateRow(l); err == nil {
 				b, _ := r.MarshalJSON()
